@@ -295,6 +295,11 @@ func (ef *Filter) Process(ctx context.Context, e *eventlogger.Event) (*eventlogg
 		if err := ef.filterField(ctx, payloadValue, filterOverrides, tm, opts...); err != nil {
 			return nil, fmt.Errorf("%s: %w", op, err)
 		}
+	case pKind == reflect.Map:
+		// a map which isn't taggable: all of its fields are filtered as secrets
+		if err := tm.trackMap(&tMap{value: payloadValue}); err != nil {
+			return nil, fmt.Errorf("%s: %w", op, err)
+		}
 	}
 
 	if err := tm.processUnfiltered(ctx, ef, filterOverrides, opts...); err != nil {
